@@ -61,7 +61,7 @@ func keysOf(m map[string]bool) string {
 }
 
 func checkC14(r *core.Run) {
-	r.Explain = "Decided statically: (C14.nonblock) every send on MessageFuture.Done cannot block: the channel's only make site has capacity >= 1, or the send sits in a select with a default arm; (C14.table) a pending future is stored only when a waiter exists, the waiter's timeout arm and the write-failure path delete from the same table the store wrote, delivery removes the future after notifying; (C14.ids) the key stored is the ID of the message handed to WritePkg, delivery looks up the received frame's ID, and every message sent with a waiter takes its ID from one atomic counter object; (C14.timeout) the waiter has a timeout arm returning a non-nil error, and every callback handed to the send together with a stored future reaches that waiter (directly or through a goroutine it starts). NOT decided: schedules; connection loss while requests are pending (getty behaviour)."
+	r.Explain = "Decided statically: (C14.nonblock) every send on MessageFuture.Done cannot block: the channel's only make site has capacity >= 1, or the send sits in a select with a default arm; (C14.table) a pending future is stored only when a waiter exists, the waiter's timeout arm and the write-failure path delete from the same table the store wrote, delivery removes the future after notifying, and nobody else removes one (the waiter on timeout, the failed write, a processor after notifying); (C14.ids) the key stored is the ID of the message handed to WritePkg, delivery looks up the received frame's ID, and every message sent with a waiter takes its ID from one atomic counter object; (C14.timeout) the waiter has a timeout arm returning a non-nil error, and every callback handed to the send together with a stored future reaches that waiter (directly or through a goroutine it starts). NOT decided: schedules; connection loss while requests are pending (getty behaviour)."
 	r.Trusted = []string{"go/types, go/cfg", "sync.Map", "C13.mirror ties RpcMessage.ID to the header's request id"}
 	w := r.W
 	mf := w.NamedType("pkg/protocol/message", "MessageFuture")
@@ -426,6 +426,68 @@ func checkC14(r *core.Run) {
 	}
 	r.Sites++
 	r.Check(len(counters) == 1 && nWaited >= 2, "C14.ids", "all waited-for messages share one id counter", "", keysOf(counters), "messages sent with a waiter take their ids from different sources {"+keysOf(counters)+"}: two in-flight requests can carry the same id and receive each other's reply")
+	// ---- who may remove a pending future: the waiter's timeout arm, the failed write in the send, and a
+	// processor that has just notified that same future. Anything else (a handler for frames whose ids are numbered
+	// by another counter, say) can delete the future of an unrelated request that happens to carry the same number.
+	{
+		n := 0
+		for _, f := range w.SortedFuncs() {
+			if w.IsTestFile(f.Decl.Pos()) || strings.Contains(f.Pkg.PkgPath, "/mock") {
+				continue
+			}
+			removes := false
+			for _, cs := range w.Calls(f) {
+				if cs.Static != nil && cs.Static.Name() == "RemoveMessageFuture" && core.RecvNamed(cs.Static) != nil && strings.HasPrefix(core.RecvNamed(cs.Static).Obj().Name(), "GettyRemoting") {
+					removes = true
+				}
+			}
+			if !removes || f.Obj.Name() == "RemoveMessageFuture" {
+				continue
+			}
+			n++
+			r.Sites++
+			r.Fn(f)
+			key := core.ShortKey(f.Obj) + " may remove a pending future"
+			switch {
+			case waiter != nil && f == waiter:
+				r.OK("C14.table", key, w.Pos(f.Decl.Pos()), "the waiter (timeout arm)")
+			default:
+				// a processor: every removal is preceded by the notification on the same path
+				sp := &flow.Spec{W: w, Classify: func(pkg *packages.Package, call *ast.CallExpr, callee *types.Func) []flow.Tag {
+					if callee == nil {
+						return nil
+					}
+					switch callee.Name() {
+					case "NotifyRpcMessageResponse":
+						return []flow.Tag{"notify"}
+					case "RemoveMessageFuture":
+						return []flow.Tag{"remove"}
+					}
+					return nil
+				}, StmtTags: func(pkg *packages.Package, st ast.Stmt) []flow.Tag {
+					// the merged delivery completes the future by sending on its Done channel directly
+					if ss, ok := st.(*ast.SendStmt); ok {
+						if sel, ok := ast.Unparen(ss.Chan).(*ast.SelectorExpr); ok && sel.Sel.Name == "Done" {
+							return []flow.Tag{"notify"}
+						}
+					}
+					return nil
+				}}
+				res := sp.Analyze(f)
+				ok := true
+				for _, cp := range res.Calls {
+					if inSet("remove", cp.Tags...) && !cp.Before.Has("notify") {
+						ok = false
+					}
+				}
+				r.Check(ok, "C14.table", key, w.Pos(f.Decl.Pos()), "only after notifying that future",
+					"this function removes a pending future it has not just delivered: its frames carry ids from another numbering (the heartbeat counter), so it can delete the future of an unrelated request with the same number — that caller then times out although its reply arrives")
+			}
+		}
+		if n < 2 {
+			r.Bad("C14.table", "INSTANCE-FLOOR functions removing pending futures", "", "fewer removers than confirmed by hand (waiter, response processor)")
+		}
+	}
 	// ---- every callback handed to the send (a future is stored for it) reaches the waiter, whose timeout arm
 	// removes the future: a callback that returns at once leaves the future of a lost reply in the table for good
 	if waiter != nil {
